@@ -195,6 +195,7 @@ claim("C07",
       "agent controls in its fresh view exist in the current (possibly re-labelled) world and the world tables, read back "
       "through the published address map, equal the pristine ones.", C_NOTE, C_TECH, "DESIGN.md section 7, C07")
 claim("C09",
+      "Per-run obligations regenerated from coordinator.py (Obl/DispatchOk.v): C09_required_params (the parameter table of _validate_game_action is exactly the documented one for the six game actions, no entry for join/quit/reset), C09_validation_shape (present, of its type, hashable; a text reason otherwise), C09_validation_order (not joined, then invalid, and only then anything that counts or plays), C09_parse_then_dispatch (nothing that can raise stands between the guarded parse and the dispatch), C09_default_replies, C09_parse_failure_replies. "
       "Rocq theorems: C09_garbage / C09_reject (every bad request - garbage, second join, join without agent_info or with an unknown "
       "role, game/reset before joining, invalid parameters - is answered BAD_REQUEST), C09_frame (and changes nothing but the "
       "sender's response queue: agents, world, events, files, other connections untouched), C09_others / C09_world (the handler of one address leaves every other agent's record untouched; only game actions and joins "
